@@ -16,6 +16,7 @@ import (
 	"sort"
 	"strings"
 	"sync"
+	"sync/atomic"
 	"time"
 
 	bnet "github.com/bio-routing/bio-rd/net"
@@ -45,6 +46,7 @@ type c10case struct {
 	Ops    []op      `json:"ops"`
 	Rounds uint32    `json:"rounds"` // bit i set: an aggregation round after operation i (deterministic explorer)
 	Timer  bool      `json:"timer,omitempty"`
+	Gated  bool      `json:"gated,omitempty"` // gated-writer explorer: the last op is a removal issued while the sender is held inside the write of the round that carries its announcement
 }
 
 const localASN = 64999
@@ -295,6 +297,73 @@ func runTimer(c *c10case, r *vf.Run, rep func(clause string, f map[string]string
 	return
 }
 
+// runGated holds the sender's ticker goroutine inside the connection write of the round that carries the queued
+// announcement(s) and issues the history's last operation (a removal) meanwhile. A sender that keeps its queue lock
+// while it writes makes the removal wait; one that released the lock lets the withdrawal overtake the announcement.
+// The 50 ms grace only gives the removal time to run; the verdict is the final view comparison.
+func runGated(c *c10case, r *vf.Run, rep func(clause string, f map[string]string, detail string)) (out outcome) {
+	defer func() {
+		if p := recover(); p != nil {
+			stk := make([]byte, 2500)
+			stk = stk[:runtime.Stack(stk, false)]
+			rep("panic", vf.F("where", bgpx.PanicSite(stk)), fmt.Sprintf("%s ops=%s: panic: %v\n%s", c.Sess, opsString(c.Ops), p, stk))
+		}
+	}()
+	g := newRig(c)
+	n := len(c.Ops)
+	for _, o := range c.Ops[:n-1] {
+		g.apply(o)
+	}
+	last := c.Ops[n-1]
+	if g.u.VerifPendingFor(g.uni[last.Pfx].Bio()) == 0 {
+		return // nothing queued for that prefix: not a case of this explorer
+	}
+	out.hits = 1
+	var armed atomic.Bool
+	entered := make(chan struct{}, 1)
+	release := make(chan struct{})
+	armed.Store(true)
+	g.cap.Gate = func([]byte) {
+		if armed.CompareAndSwap(true, false) {
+			entered <- struct{}{}
+			<-release
+		}
+	}
+	g.u.Start(time.Millisecond)
+	select {
+	case <-entered:
+	case <-time.After(10 * time.Second):
+		armed.Store(false)
+		close(release)
+		g.u.Destroy()
+		r.Inconclusive("gated explorer: the sender never wrote the queued announcement")
+		return
+	}
+	done := make(chan struct{})
+	go func() {
+		g.apply(last)
+		close(done)
+	}()
+	select {
+	case <-done:
+	case <-time.After(50 * time.Millisecond):
+	}
+	close(release)
+	<-done
+	deadline := time.Now().Add(20 * time.Second)
+	for g.u.VerifPending() != 0 && time.Now().Before(deadline) {
+		time.Sleep(500 * time.Microsecond)
+	}
+	g.u.Destroy()
+	peer, bad := g.peerView()
+	if bad != "" {
+		rep("undecodable", vf.F(), bad)
+		return
+	}
+	out.mismatch = judge(c, peer, g.ribView(), "view-mismatch-gated", out.hits, rep)
+	return
+}
+
 // Histories are well-formed the way a Loc-RIB drives a client: a path is removed only while it is
 // advertised, and added only while it is not. Without add-path the Adj-RIB-Out holds one path per prefix
 // and adding another one replaces it (the "best-only replacement" of adj_rib_out.go).
@@ -311,6 +380,10 @@ func (st state) next(addPath bool) []op {
 				present = st[pf] == uint8(1+pa)
 			}
 			out = append(out, op{Add: !present, Pfx: pf, Path: pa})
+			if present && !addPath {
+				// re-announcement of the unchanged path (an implicit replacement by itself)
+				out = append(out, op{Add: true, Pfx: pf, Path: pa})
+			}
 		}
 	}
 	return out
@@ -400,7 +473,9 @@ func main() {
 			// the order in which one round sends its queue entries is a map iteration order: repeat
 			for i := 0; i < 40; i++ {
 				var o outcome
-				if c.Timer {
+				if c.Gated {
+					o = runGated(&c, r, mk(c))
+				} else if c.Timer {
 					o = runTimer(&c, r, mk(c))
 				} else {
 					o = runDet(&c, mk(c))
@@ -466,6 +541,27 @@ func main() {
 		r.Count("deterministic_pairs", int(pairs))
 		r.Count("pairs_with_withdrawal_hitting_queued_announcement", int(hitPairs))
 		r.Set("exhaustive_history_lengths", fmt.Sprintf("1..%d, all well-formed histories x 4 IPv4 session kinds x all round placements", maxLen))
+		// gated-writer explorer: add [, add ...], then the removal of a queued path while the round is being written
+		ng := 0
+		for rep := 0; rep < r.N(2, 40); rep++ {
+			for _, k := range ks {
+				for pf := 0; pf < 2; pf++ {
+					for pa := 0; pa < 3; pa++ {
+						c := k
+						c.Gated = true
+						if pa > 0 && k.Sess.AddPath {
+							c.Ops = append(c.Ops, op{Add: true, Pfx: pf, Path: 0})
+						}
+						c.Ops = append(c.Ops, op{Add: true, Pfx: 1 - pf, Path: pa}, op{Add: true, Pfx: pf, Path: pa}, op{Add: false, Pfx: pf, Path: pa})
+						o := runGated(&c, r, mk(c))
+						ng += o.hits
+						r.Eval(1)
+					}
+				}
+			}
+		}
+		r.Count("gated_writer_cases", ng)
+		r.Require("gated_writer_cases", 40)
 		// real-timer explorer
 		timerExplorer(r, mk, r.N(400, 20000), "c10-timer")
 		if bin := os.Getenv("VERIF_RACE_BIN"); bin != "" {
